@@ -590,7 +590,7 @@ func (k *Kernel) accept(a *arrival) {
 		k.logf("repository removed at yield %d (%s)", g.proc.yields, a.point)
 		k.Stats.fault("repository-removed")
 	}
-	if mu := k.sc.Mutate; mu != nil && g.proc.idx == 0 && mu.Every > 0 && (mu.Mode == "touch" || strings.HasPrefix(a.point, "load.")) {
+	if mu := k.sc.Mutate; mu != nil && g.proc.idx == 0 && mu.Every > 0 && (mu.Mode == "touch" || mu.Mode == "remove" || strings.HasPrefix(a.point, "load.")) {
 		k.mutSeen++
 		if k.mutSeen%mu.Every == 0 && (mu.Max == 0 || k.mutDone < mu.Max) {
 			p := filepath.Join(k.Dir, mu.File)
@@ -600,6 +600,11 @@ func (k *Kernel) accept(a *arrival) {
 				if os.Chtimes(p, ts, ts) == nil {
 					k.mutDone++
 					k.Stats.fault("file-touched-under-reader")
+				}
+			case "remove":
+				if os.Remove(p) == nil {
+					k.mutDone++
+					k.Stats.fault("file-removed-under-process")
 				}
 			case "append":
 				if f, err := os.OpenFile(p, os.O_WRONLY|os.O_APPEND, 0); err == nil {
